@@ -15,7 +15,7 @@ def run(ck):
             sc, g = sysfam.c20(rng, "UB:256:4096", many=n)
             out.append((f"c20-many-{n}", "UB:256:4096", sc, g))
         return out
-    sysfam.run_family(ck, "C20", 50 if quick else 1200, extra)
+    sysfam.run_family(ck, "C20", 200 if quick else 2500, extra)
 
 
 def replay(ck, path):
